@@ -77,6 +77,21 @@ func (in *Inferer) ArithUndetermined() bool {
 	return false
 }
 
+// ArithNonScalar: an arithmetic or ordering operand whose type is determined and is neither int nor string (the
+// operators are defined on those only; a program that orders slices or pairs is ill-typed).
+func (in *Inferer) ArithNonScalar() bool {
+	for _, t := range in.ArithOperands {
+		k := t.find()
+		if k.Kind == KVar {
+			continue
+		}
+		if !(k.Kind == KCon && len(k.Args) == 0 && (k.Name == "int" || k.Name == "string")) {
+			return true
+		}
+	}
+	return false
+}
+
 // evident: the type of e is known where it is written, without looking at later
 // branches (fc types an if / match by its first branch at parse time).
 func (in *Inferer) evident(e Expr, env *tenv) bool {
@@ -828,6 +843,7 @@ func (in *Inferer) LoadFoi(text string) {
 func NewInferer() *Inferer {
 	in := &Inferer{Globals: map[string]*Scheme{}, Records: map[string]*RecInfo{}, Ctors: map[string]*CtorInfo{}}
 	in.Records["R"] = &RecInfo{Name: "R", Fields: []FieldT{{"A", TInt}, {"B", TString}}}
+	in.Records["Rz"] = &RecInfo{Name: "Rz", Fields: []FieldT{{"A", TInt}, {"B", TString}}}
 	in.Ctors["I"] = &CtorInfo{Union: "U", Payload: TInt}
 	in.Ctors["S"] = &CtorInfo{Union: "U", Payload: TString}
 	in.Ctors["N"] = &CtorInfo{Union: "U"}
